@@ -1,0 +1,83 @@
+//go:build verif
+
+package file
+
+import (
+	"io"
+	"os"
+	"sync"
+
+	"github.com/ozontech/file.d/metric"
+	"github.com/ozontech/file.d/pipeline"
+	"github.com/ozontech/file.d/pipeline/metadata"
+	"github.com/prometheus/client_golang/prometheus"
+	"go.uber.org/atomic"
+	"go.uber.org/zap"
+)
+
+// Verification-only export for C06 (build tag `verif`). Nothing here is compiled into normal builds.
+
+// VerifInputer is what worker.work needs from its controller (the unexported `inputer`):
+// a *pipeline.Pipeline satisfies it, so the real worker can be run against the real Pipeline.In.
+type VerifInputer interface {
+	In(sourceID pipeline.SourceID, sourceName string, offset pipeline.Offsets, data []byte, isNewSource bool, meta metadata.MetaData) uint64
+	IncReadOps()
+	IncMaxEventSizeExceeded(lvs ...string)
+}
+
+// VerifWorkerTurnsWith is VerifWorkerTurns with the controller supplied by the caller: it runs
+// the real worker.work on the file at path, one turn per element of appends (appended to the file
+// before the turn; a turn runs until EOF), handing every line to `in`. It returns the job's
+// curOffset / tail / shouldSkip after the last turn.
+func VerifWorkerTurnsWith(in VerifInputer, maxEventSize int, cutOff bool, readBufferSize int, path string, start int64, skip bool, appends [][]byte) (curOffset int64, tail []byte, skipAfter bool, err error) {
+	wf, err := os.OpenFile(path, os.O_WRONLY|os.O_APPEND|os.O_CREATE, 0o644)
+	if err != nil {
+		return 0, nil, false, err
+	}
+	defer wf.Close()
+	f, err := os.Open(path)
+	if err != nil {
+		return 0, nil, false, err
+	}
+	defer f.Close()
+
+	job := &Job{
+		file:       f,
+		isDone:     false,
+		shouldSkip: *atomic.NewBool(skip),
+		mu:         &sync.Mutex{},
+	}
+	if _, err = f.Seek(start, io.SeekStart); err != nil {
+		return 0, nil, false, err
+	}
+	job.curOffset = start
+
+	ctl := metric.NewCtl("verif", prometheus.NewRegistry(), 0, 0)
+	metrics := newMetricCollection(
+		ctl.RegisterCounter("verif_worker1", "h"),
+		ctl.RegisterCounter("verif_worker2", "h"),
+		ctl.RegisterGauge("verif_worker3", "h"),
+		ctl.RegisterGauge("verif_worker4", "h"),
+	)
+	lg := zap.NewNop().Sugar()
+	jp := NewJobProvider(&Config{}, metrics, lg)
+	jp.jobsChan = make(chan *Job, 2)
+	jp.jobs = map[pipeline.SourceID]*Job{1: job}
+
+	w := &worker{maxEventSize: maxEventSize, cutOffEventByLimit: cutOff}
+	for _, a := range appends {
+		if len(a) > 0 {
+			if _, err = wf.Write(a); err != nil {
+				return 0, nil, false, err
+			}
+		}
+		if job.isDone {
+			job.isDone = false
+			jp.jobsDone.Dec()
+		}
+		jp.jobsChan <- job
+		jp.jobsChan <- nil
+		w.work(in, jp, readBufferSize, lg)
+	}
+	return job.curOffset, append([]byte(nil), job.tail...), job.shouldSkip.Load(), nil
+}
